@@ -84,13 +84,17 @@ def run_C03(ctx):
         scen += [dict(v, script=r["script"], eofwith=r["eofwith"]) for v in unary_variants(r["sc"])]
     # every complete body of the design check under adversarial + random segmentations
     # (read limits are C09's subject, except for plain gRPC, which has no terminator frame for the limit to hit)
-    comp = [r for r in allsc if complete(r["sc"]) and (r["sc"]["limit"] == 0 or r["sc"]["proto"] == "grpc")]
+    # (... and except on the handler side, where there are no terminator frames either)
+    comp = [r for r in allsc if complete(r["sc"]) and (r["sc"]["limit"] == 0 or r["sc"]["proto"] == "grpc"
+                                                        or r["sc"]["side"] == "handler")]
     for r in comp:
         n = wirelen(r["sc"]) + 8
         rnd = [[ctx.rng.randint(1, 4) for _ in range(n)] for _ in range(2 if quick else 8)]
         for script in [[], ONES, SPLIT] + rnd:
             for ew in (False, True):
                 s = flat(r, script, ew)
+                if s["side"] == "handler" and s["limit"] > 0:
+                    s["bidi"] = True      # also what the connection reports after the failure must not depend on reads
                 scen.append(s)
                 if not quick:
                     scen += unary_variants(s)
@@ -116,6 +120,13 @@ def run_C04(ctx):
                 scen.append(s)
                 if script == [] or not quick:
                     scen += unary_variants(s)
+    # HTTPClient.Do itself fails: no response at all (every protocol, stream- and unary-shaped APIs)
+    for r in allsc:
+        sc = r["sc"]
+        if sc["side"] == "client" and sc["cut"] == 0 and sc["tail"] != "eof" and sc["limit"] == 0 and sc["enc"] == "none":
+            s = flat(r, [], False, doerr=True)
+            scen.append(s)
+            scen += unary_variants(s)
     _run(ctx, scen, "c04")
     return core.finish(ctx, rule=RULE, exhaustive=True, assumptions=[
         "cut offsets are exhaustive over the abstract frame sizes; compressed and terminator frames are "
